@@ -856,6 +856,16 @@ def rule_exprflow(chk, prog, tier):
                     if res != want: return 'the value of the expression must be the %s value; got %s' % ('old' if post else 'new', lab(res))
                     return None
                 cases.append(('incdec:%s%s,%s' % ('post' if post else 'pre', '++' if op == 'TINC' else '--', ty), build, judge))
+    # ---- constants of every scalar kind (also nullptr_t: `nullptr;` is a valid expression statement)
+    for ty, field, value in (('int', 'u', 7), ('ulong', 'u', 2 ** 63), ('pint', 'u', 0), ('nullptr', 'u', 0), ('double', 'f', 1.5), ('float', 'f', 0.25), ('bool', 'u', 1)):
+        def build(w, u, leaf, ty=ty, field=field, value=value):
+            t_ = w.t('nullptr') if ty == 'nullptr' else u[ty]
+            return w.mkexpr('EXPRCONST', t_, **{'u__constant__' + field: value})
+        def judge(res, evs, ty=ty, field=field, value=value):
+            if [e_ for e_ in evs if e_[0] in ('inst', 'store', 'load')]: return 'a constant needs no instruction; got %s' % [e_[:3] for e_ in evs]
+            if field == 'u': return None if res == ('const', value) else 'expected the integer constant %d, got %r' % (value, res)
+            return None if isinstance(res, tuple) and res[0] == 'fconst' and res[2] == value else 'expected the floating constant %r, got %r' % (value, res)
+        cases.append(('const:%s' % ty, build, judge))
     # ---- assignment
     for ty in ('char', 'int', 'long', 'double', 'pint'):
         def build(w, u, leaf, ty=ty):
@@ -920,6 +930,9 @@ def rule_exprflow(chk, prog, tier):
     cases.append(('addrof', build, judge))
     for key, build, judge in cases:
         runs = explore(prog, mk_runner(build), {}, max_runs=4, on_unsupported='keep')
+        if len(runs) == 1 and runs[0].outcome in ('terminal:assert', 'terminal:fatal'):
+            # a valid expression of the language must be lowered, not end the compiler
+            r.instance(False, 'exprflow:' + key, 'qbe.c:%s' % fe.get('line'), 'lowering ends in %s: %s' % (runs[0].outcome, str(runs[0].detail)[:160])); continue
         if len(runs) != 1 or runs[0].outcome != 'return':
             raise AnalysisBroken('funcexpr %s: %s %s' % (key, runs[0].outcome if runs else '?', runs[0].detail if runs else ''))
         res, evs = runs[0].value
